@@ -230,12 +230,16 @@ func main() {
 	case "sweep":
 		cmdSweep(os.Args[2:])
 	case "stable":
-		g, err := loadAll("/repo")
+		root := "/repo"
+		if len(os.Args) > 2 {
+			root = os.Args[2]
+		}
+		g, err := loadAll(root)
 		if err != nil {
 			fmt.Fprintln(os.Stderr, err)
 			os.Exit(2)
 		}
-		for _, o := range g.stableScan() {
+		for _, o := range append(g.stableScan(), g.immutableScan()...) {
 			fmt.Println(o.Res.Status, o.Name, o.Res.Output)
 		}
 	case "overlay":
